@@ -162,7 +162,10 @@ package common
 //@ trusted func (a Address) Bytes() (r []byte)
 //@   ensures fresh(r) && len(r) == 20 && content(r) == content(a) && addrOfContent(content(r)) == a
 //@   ensures forall i int :: 0 <= i && i < 20 ==> r[i] == a[i]
+// BytesToHash is a function of the bytes alone.
+//@ spec func hashOfBytes(c Content) Hash
 //@ trusted func BytesToHash(b []byte) (h Hash)
+//@   ensures h == hashOfBytes(content(b))
 //@   ensures len(b) == 32 ==> content(h) == content(b)
 //@   ensures len(b) == 0 ==> h == Hash{}
 //@ trusted func BytesToAddress(b []byte) (a Address)
